@@ -8,6 +8,7 @@ modules/log/async_file_sink.cpp (flush / rollover).  The async pipe is used thro
 contract only (property C10): the byte stream delivered to the back end is the
 concatenation of the appends, cut into chunks at arbitrary places.
 -/
+import TboxModel.C09.GenTables
 namespace Tbox.C09
 
 abbrev Byte := UInt8
@@ -214,6 +215,43 @@ def Rec.piecesFit (r : Rec) : Bool :=
 def render (r : Rec) : Bytes := r.head ++ r.funcPiece ++ r.textPiece ++ r.filePiece ++ [10]
 def renderAsFound (r : Rec) : Bytes := r.head ++ r.funcPiece ++ r.textPieceAsFound ++ r.filePiece ++ [10]
 
+
+/-! ### colour, the synchronous stdout sink, syslog
+
+`enableColor(true)` brackets every record with `"\033[<code>m"` … `"\033[0m"`; the per-level
+codes are `genColorCodes`, regenerated from log_impl.cpp on every run. -/
+
+def colorCode (l : Nat) : Bytes := genColorCodes.getD l []
+/-- `"\033[%sm"` -/
+def colorOn (l : Nat) : Bytes := [27, 91] ++ colorCode l ++ [109]
+/-- `"\033[0m"` -/
+def colorOff : Bytes := [27, 91, 48, 109]
+
+/-- AsyncSink::onLogBackEnd up to (not including) `endline()` -/
+def renderBody (color : Bool) (r : Rec) : Bytes :=
+  (if color then colorOn r.level else []) ++ r.head ++ r.funcPiece ++ r.textPiece ++ r.filePiece
+    ++ (if color then colorOff else [])
+
+/-- AsyncFileSink / AsyncStdoutSink: `endline()` pushes a newline -/
+def renderC (color : Bool) (r : Rec) : Bytes := renderBody color r ++ [10]
+
+/-- SyncStdoutSink::onLogFrontEnd: the printf sequence as coded, ending with `puts("\033[0m")`
+(colour) or `putchar('\n')` -/
+def renderSync (color : Bool) (r : Rec) : Bytes :=
+  (if color then [27, 91] ++ colorCode r.level ++ [109] else [])
+  ++ ([levelCode r.level, 32] ++ r.ts ++ [32] ++ r.tid ++ [32] ++ r.module ++ [32])
+  ++ (match r.func with | some f => f ++ funcSuffix | none => [])
+  ++ (if r.text.length > 0 then r.text ++ [32] else [])
+  ++ (if r.trunc then truncMarker else [])
+  ++ (match r.file with | some f => filePrefix ++ f ++ [58] ++ r.line | none => [])
+  ++ (if color then colorOff ++ [10] else [10])
+
+/-- what a `const char*` argument of `%s` denotes: the bytes before the first NUL -/
+def cstr (bs : Bytes) : Bytes := bs.takeWhile (· != 0)
+
+/-- AsyncSyslogSink::endline: `cache_` + NUL handed to `syslog(LOG_INFO, "%s", cache_.data())` -/
+def syslogMsg (color : Bool) (r : Rec) : Bytes := cstr (renderBody color r ++ [0])
+
 /-! ## (f) AsyncFileSink::flush — write the cache, roll over between batches -/
 
 structure FileSt where
@@ -244,6 +282,58 @@ def fileBatch (max : Nat) (s : FileSt) (batch : List Bytes) : FileSt :=
 
 def fileRun (max : Nat) (s : FileSt) (batches : List (List Bytes)) : FileSt :=
   batches.foldl (fileBatch max) s
+
+
+/-! ### write faults: `write(2)` may accept fewer bytes than asked (oracle) -/
+
+/-- contents / byte counter of the file behind the open fd (a fresh file if none is open) -/
+def curData (s : FileSt) : Bytes := match s.cur with | some d => d | none => []
+def curTotal (s : FileSt) : Nat := match s.cur with | some _ => s.total | none => 0
+
+/-- the write loop of the repaired `flush()` (patches/C09-04): each `write` result comes from the
+oracle — `some k`, k ≥ 1: `k` bytes accepted (at most what was asked); `some 0`/`none`: error, stop.
+An exhausted oracle means complete writes.  Returns (bytes written, bytes left). -/
+def writeAll : List (Option Nat) → Bytes → Bytes × Bytes
+  | [], data => (data, [])
+  | none :: _, data => ([], data)
+  | some k :: os, data =>
+    if data.isEmpty then ([], [])
+    else if k = 0 then ([], data)
+    else let r := writeAll os (data.drop k); (data.take k ++ r.1, r.2)
+
+/-- repaired `flush()`: what was written is removed from the cache; an unwritten tail stays in
+the cache, the fd stays open and no rollover is decided until the tail is on disk -/
+def flushW (max : Nat) (s : FileSt) (o : List (Option Nat)) : FileSt :=
+  let d0 := curData s
+  let t0 := curTotal s
+  let r := writeAll o s.cache
+  let d := d0 ++ r.1
+  let total := t0 + r.1.length
+  if r.2.isEmpty then
+    if total ≥ max then { closed := s.closed ++ [d], cur := none, total := total, cache := [] }
+    else { closed := s.closed, cur := some d, total := total, cache := [] }
+  else { closed := s.closed, cur := some d, total := total, cache := r.2 }
+
+def fileBatchW (max : Nat) (s : FileSt) (b : List Bytes × List (Option Nat)) : FileSt :=
+  if b.1.isEmpty then s else flushW max { s with cache := s.cache ++ b.1.flatten } b.2
+
+def fileRunW (max : Nat) (s : FileSt) (bs : List (List Bytes × List (Option Nat))) : FileSt :=
+  bs.foldl (fileBatchW max) s
+
+/-- the code as found: one `write`; if it returns anything but the full size the bytes it did
+write stay in the file, the counter and the cache are left as they were -/
+def flushAsFound (max : Nat) (s : FileSt) (o : Option Nat) : FileSt :=
+  let d0 := curData s
+  let t0 := curTotal s
+  let k := match o with | some k => min k s.cache.length | none => 0
+  if k = s.cache.length then
+    let total := t0 + s.cache.length
+    if total ≥ max then { closed := s.closed ++ [d0 ++ s.cache], cur := none, total := total, cache := [] }
+    else { closed := s.closed, cur := some (d0 ++ s.cache), total := total, cache := [] }
+  else { closed := s.closed, cur := some (d0 ++ s.cache.take k), total := t0, cache := s.cache }
+
+def fileBatchAsFound (max : Nat) (s : FileSt) (b : List Bytes × Option Nat) : FileSt :=
+  if b.1.isEmpty then s else flushAsFound max { s with cache := s.cache ++ b.1.flatten } b.2
 
 /-- the whole back end of an AsyncFileSink over the chunks the pipe delivers -/
 def backEnd (H : Nat) (tl : Bytes → Nat) (rend : Bytes × Bytes → Bytes) (max : Nat)
